@@ -455,40 +455,78 @@ auto sto(Line const& l, FE fe, FS fs) -> std::string
     return out(e, s);
 }
 
-auto step(Line const& l) -> std::string
+// every operation that is a template over the integer type
+template <typename T>
+auto ops(Line const& l) -> std::string
 {
-    std::string const ty = l.has("ty") ? l.str("ty") : "";
-    std::string const fn = l.has("fn") ? l.str("fn") : "";
+    if (l.op == "to_chars") return op_to_chars<T>(l);
+    if (l.op == "from_integer") return op_from_integer<T>(l);
+    if (l.op == "from_chars") return op_from_chars<T>(l);
+    if (l.op == "to_integer") return op_to_integer<T>(l);
+    if (l.op == "to_integer_nc") return op_to_integer_nc<T>(l);
+    if (l.op == "round_trip") return op_round_trip<T>(l);
+    if (l.op == "to_chars_all") return op_to_chars_all<T>(l);
+    return "bad-op\tbad-op";
+}
 
-#define BY_TYPE(OP)                                                                                                    \
-    do {                                                                                                               \
-        if (ty == "i8") return OP<signed char>(l);                                                                     \
-        if (ty == "u8") return OP<unsigned char>(l);                                                                   \
-        if (ty == "i16") return OP<short>(l);                                                                          \
-        if (ty == "u16") return OP<unsigned short>(l);                                                                 \
-        if (ty == "i32") return OP<int>(l);                                                                            \
-        if (ty == "u32") return OP<unsigned>(l);                                                                       \
-        if (ty == "i64") return OP<long>(l);                                                                           \
-        if (ty == "u64") return OP<unsigned long>(l);                                                                  \
-        if (ty == "c8") return OP<char>(l);                                                                            \
-        if (ty == "ill") return OP<long long>(l);                                                                      \
-        if (ty == "ull") return OP<unsigned long long>(l);                                                             \
-        if (ty == "c8u") return OP<char8_t>(l);                                                                        \
-        if (ty == "c16") return OP<char16_t>(l);                                                                       \
-        if (ty == "c32") return OP<char32_t>(l);                                                                       \
-        if (ty == "wc") return OP<wchar_t>(l);                                                                         \
-        return std::string("bad-op\tbad-op");                                                                          \
-    } while (false)
+} // namespace
 
-    if (l.op == "to_chars") BY_TYPE(op_to_chars);
-    if (l.op == "from_integer") BY_TYPE(op_from_integer);
-    if (l.op == "from_chars") BY_TYPE(op_from_chars);
-    if (l.op == "to_integer") BY_TYPE(op_to_integer);
-    if (l.op == "to_integer_nc") BY_TYPE(op_to_integer_nc);
-    if (l.op == "round_trip") BY_TYPE(op_round_trip);
-    if (l.op == "to_chars_all") BY_TYPE(op_to_chars_all);
-#undef BY_TYPE
+// The file is compiled as several translation units in parallel (checks/props/c10.py: -DC10_PART=k compiles the
+// instantiations of type group k only, -DC10_PART=-1 compiles step()/main() and links the groups); without C10_PART it
+// is one translation unit.
+#ifndef C10_PART
+    #define C10_PART 99
+#endif
+#define C10_IN(k) (C10_PART == 99 || C10_PART == (k))
 
+namespace part {
+auto group0(Line const& l, std::string const& ty) -> std::string;
+auto group1(Line const& l, std::string const& ty) -> std::string;
+auto group2(Line const& l, std::string const& ty) -> std::string;
+auto group3(Line const& l, std::string const& ty) -> std::string;
+auto group4(Line const& l, std::string const& ty) -> std::string;
+auto group5(Line const& l, std::string const& ty) -> std::string;
+auto group6(Line const& l, std::string const& ty) -> std::string;
+auto group7(Line const& l, std::string const& ty) -> std::string;
+auto by_name(Line const& l, std::string const& fn) -> std::string;
+
+#define C10_GROUP(K, N1, T1, N2, T2)                                                                                   \
+    auto group##K(Line const& l, std::string const& ty) -> std::string                                                 \
+    {                                                                                                                  \
+        if (ty == N1) return ops<T1>(l);                                                                               \
+        if (ty == N2) return ops<T2>(l);                                                                               \
+        return "";                                                                                                     \
+    }
+#if C10_IN(0)
+C10_GROUP(0, "i8", signed char, "u8", unsigned char)
+#endif
+#if C10_IN(1)
+C10_GROUP(1, "i16", short, "u16", unsigned short)
+#endif
+#if C10_IN(2)
+C10_GROUP(2, "i32", int, "u32", unsigned)
+#endif
+#if C10_IN(3)
+C10_GROUP(3, "i64", long, "u64", unsigned long)
+#endif
+#if C10_IN(4)
+C10_GROUP(4, "c8", char, "ill", long long)
+#endif
+#if C10_IN(5)
+C10_GROUP(5, "ull", unsigned long long, "c8u", char8_t)
+#endif
+#if C10_IN(6)
+C10_GROUP(6, "c16", char16_t, "c32", char32_t)
+#endif
+#if C10_IN(7)
+C10_GROUP(7, "wc", wchar_t, "wc", wchar_t)
+#endif
+#undef C10_GROUP
+
+#if C10_IN(8)
+// the operations selected by a function name
+auto by_name(Line const& l, std::string const& fn) -> std::string
+{
     if (l.op == "to_string") {
         if (fn == "i32") return op_to_string<int>(l);
         if (fn == "u32") return op_to_string<unsigned>(l);
@@ -521,7 +559,25 @@ auto step(Line const& l) -> std::string
     }
     return "bad-op\tbad-op";
 }
+#endif
+} // namespace part
 
+#if C10_IN(-1)
+namespace {
+auto step(Line const& l) -> std::string
+{
+    std::string const ty = l.has("ty") ? l.str("ty") : "";
+    std::string const fn = l.has("fn") ? l.str("fn") : "";
+    if (l.has("ty")) {
+        for (auto g : {part::group0, part::group1, part::group2, part::group3, part::group4, part::group5, part::group6, part::group7}) {
+            auto r = g(l, ty);
+            if (not r.empty()) return r;
+        }
+        return "bad-op\tbad-op";
+    }
+    return part::by_name(l, fn);
+}
 } // namespace
 
 int main(int argc, char** argv) { return proto::run(argc, argv, step); }
+#endif
